@@ -22,7 +22,7 @@ TECHNIQUE = "all tuples of 2-4 domains from a 9-domain menu x basis arrays x axi
 LEVEL_TEXT = "every tuple of menu domains is equalised with identity-basis arrays (so every basis function is interpolated); start, end, spacing, count and every interpolated value are decided against an independent piecewise-linear oracle; estimator captures with a foreign domain against the trapezoid integral on the common grid"
 LEVEL_NOTE = "9-domain menu (uniform steps 1, 1/2, 3; non-uniform; nested; partially overlapping; touching; disjoint; unsorted)"
 KE = ("exc", "msg", "api", "class")
-KV = ("api", "what", "class", "layout")
+KV = ("api", "what", "class", "layout", "frame")
 
 MENU = {
     "u1": [0, 1, 2, 3, 4, 5, 6],
@@ -36,6 +36,13 @@ MENU = {
     "unsorted": [4, 0, 2.5, 7, 1],
 }
 NAMES = list(MENU)
+# the same menu in other coordinate frames x -> a*x + b (wavelengths in SI metres; a large offset relative to the step)
+FRAMES = {"plain": (1.0, 0.0), "metres": (0.5e-9, 300e-9), "offset1e6": (1.0, 1.0e6)}
+
+
+def _dom(name, frame):
+    a, b = FRAMES[frame]
+    return np.array([a * v + b for v in MENU[name]], dtype=float)
 
 
 def _v(rec, clause, sig, *a, **k):
@@ -46,7 +53,10 @@ def units(tier, seed):
     out = []
     for first in NAMES:
         for k in ((2, 3) if tier == "quick" else (2, 3, 4)):
-            out.append(dict(kind="equalize", first=first, k=k, tier=tier))
+            for frame in FRAMES:
+                if frame != "plain" and k > (2 if tier == "quick" else 3):
+                    continue
+                out.append(dict(kind="equalize", first=first, k=k, frame=frame, tier=tier))
     out.append(dict(kind="estimator", tier=tier))
     return out
 
@@ -89,10 +99,12 @@ def run_unit(unit, rec):
 
     if unit["kind"] == "estimator":
         return _run_estimator(unit, rec, dreye)
-    first, k = unit["first"], unit["k"]
+    first, k, frame = unit["first"], unit["k"], unit.get("frame", "plain")
     for rest in itertools.product(NAMES, repeat=k - 1):
         tup = (first,) + rest
-        doms = [np.array(MENU[n], dtype=float) for n in tup]
+        doms = [_dom(n, frame) for n in tup]
+        # round-off of the interpolation weights (x - x0) / (x1 - x0) grows with |x| / step
+        tolv = 1e-12 + 64 * 2.3e-16 * max(float(np.max(np.abs(d))) for d in doms) / min(float(np.min(np.abs(np.diff(np.sort(d))))) for d in doms)
         identical = all(np.array_equal(doms[0], d) for d in doms)
         kind, info = expected_domain([list(d) for d in doms])
         cls = "identical" if identical else {"reject": "no-overlap", "open": "overlap<step", "ok": "overlap"}[kind]
@@ -121,8 +133,8 @@ def run_unit(unit, rec):
                     arrs.append((np.arange(n) * 3 % 5) * 0.5)
             if lay == "rank3-axis1":
                 axes = [1] * k
-            sig = dict(api="equalize_domains", layout=lay, **{"class": cls})
-            case = dict(domains=list(tup), layout=lay)
+            sig = dict(api="equalize_domains", layout=lay, frame=frame, **{"class": cls})
+            case = dict(domains=list(tup), layout=lay, frame=frame)
             rec.path()
             rec.trans()
             copies = [a.copy() for a in arrs]
@@ -138,7 +150,7 @@ def run_unit(unit, rec):
             if any(not np.array_equal(a, c) for a, c in zip(arrs, copies)):
                 _v(rec, "d", dict(sig, what="input-mutated"), "an input array was modified", case)
             if cls == "no-overlap":
-                rec.distinct((tup, lay))
+                rec.distinct((tup, lay, frame))
                 rec.outcome("no-overlap/%s" % ("rejected" if err is not None else "accepted"))
                 if err is None:
                     _v(rec, "e", dict(sig, what="not-rejected"), "non-overlapping domains were not rejected", case, observed=np.asarray(nd))
@@ -152,7 +164,7 @@ def run_unit(unit, rec):
                 continue
             nd = np.asarray(nd, dtype=float)
             if cls == "identical":
-                rec.distinct((tup, lay))
+                rec.distinct((tup, lay, frame))
                 okd = np.array_equal(nd, doms[0])
                 if kw:
                     ref = np.concatenate(arrs, axis=0) if kw.get("concatenate") else np.stack(arrs, axis=0)
@@ -163,7 +175,7 @@ def run_unit(unit, rec):
                 if not (okd and oka):
                     _v(rec, "d", dict(sig, what="changed"), "arrays sharing one domain were not returned unchanged", case)
                 continue
-            rec.distinct((tup, lay))
+            rec.distinct((tup, lay, frame))
             lemin, lemax, step, cands = info
             bad = None
             if nd.ndim != 1 or len(nd) < 2:
@@ -172,7 +184,7 @@ def run_unit(unit, rec):
                 bad = ("a", "new domain [%r, %r] does not start/end exactly at the overlap [%r, %r]" % (nd[0], nd[-1], lemin, lemax))
             elif len(nd) not in cands:
                 bad = ("b", "new domain has %d points, expected %s (overlap %.4g / coarsest mean step %.4g)" % (len(nd), sorted(cands), lemax - lemin, step))
-            elif np.max(np.abs(np.diff(nd) - (lemax - lemin) / (len(nd) - 1))) > 1e-12 * (1 + abs(lemax)):
+            elif np.max(np.abs(np.diff(nd) - (lemax - lemin) / (len(nd) - 1))) > 1e-9 * step + 8e-16 * abs(lemax):
                 bad = ("b", "new domain is not uniformly spaced")
             if bad:
                 _v(rec, bad[0], dict(sig, what=bad[1][:25]), bad[1], case, observed=nd, expected=dict(start=lemin, end=lemax, step=step))
@@ -186,9 +198,9 @@ def run_unit(unit, rec):
                 exp.append(np.moveaxis(np.tensordot(M, np.moveaxis(a, ax, 0), axes=([1], [0])), 0, ax))
             if kw:
                 expo = np.concatenate(exp, axis=0) if kw.get("concatenate") else np.stack(exp, axis=0)
-                okc = np.shape(out) == expo.shape and np.max(np.abs(np.asarray(out) - expo)) <= 1e-12 * (1 + np.max(np.abs(expo)))
+                okc = np.shape(out) == expo.shape and np.max(np.abs(np.asarray(out) - expo)) <= tolv * (1 + np.max(np.abs(expo)))
             else:
-                okc = len(out) == len(exp) and all(np.shape(o) == e.shape and np.max(np.abs(np.asarray(o) - e)) <= 1e-12 * (1 + np.max(np.abs(e))) for o, e in zip(out, exp))
+                okc = len(out) == len(exp) and all(np.shape(o) == e.shape and np.max(np.abs(np.asarray(o) - e)) <= tolv * (1 + np.max(np.abs(e))) for o, e in zip(out, exp))
             rec.outcome("overlap/%s" % ("interpolated" if okc else "wrong-values"))
             if not okc:
                 _v(rec, "c", dict(sig, what="values"), "interpolated arrays differ from piecewise-linear interpolation on the new grid", case,
